@@ -183,7 +183,8 @@ Definition agree1 (m : mobs) (i : iobs) : bool :=
   match m, i with
   | _, ISkip => true
   | MAdd n mean m2 sc2, IAdd n' mean' m2' sc' =>
-      Nat.eqb n n' && all2 close mean' mean && all2 close m2' m2 && all2 close_sq sc' sc2
+      Nat.eqb n n' && all2 close m2' m2 && all2 close_sq sc' sc2
+      && all2 (fun ab s2 => close_at ((1 + s2) / 2) (fst ab) (snd ab)) (combine mean' mean) sc2
   | MUpdate w2 nf, IUpdate weis nf' z => all2 close_sq weis w2 && Nat.eqb nf nf' && z
   | MInit, IInit z => z
   | MGen (Some o), IGen (Some o') => close_dout o' o
@@ -202,11 +203,13 @@ Definition colmean (R : mat) (j : nat) : Q := Qred (qsum (col j R) / Qn (length 
 Definition colss (R : mat) (j : nat) : Q :=
   let m := colmean R j in qsum (map (fun x => Qsq (x - m)) (col j R)).
 Definition colvar (R : mat) (j : nat) : Q := Qred (colss R j / Qn (length R)).
+(** mean absolute value: the magnitude the rounding error of a float mean is relative to *)
+Definition colabs (R : mat) (j : nat) : Q := Qred (qsum (map Qabs (col j R)) / Qn (length R)).
 
 Definition ok_add (R : mat) (n : nat) (mean m2 scale : list Q) : bool :=
   let w := width R in
   Nat.eqb n (length R) && Nat.eqb (length mean) w && Nat.eqb (length m2) w && Nat.eqb (length scale) w
-  && forallb (fun j => close (nth j mean 0) (colmean R j)
+  && forallb (fun j => close_at (colabs R j) (nth j mean 0) (colmean R j)
                        && close (nth j m2 0) (colss R j)
                        && close_sq (nth j scale (-(1))) (colvar R j)) (seq 0 w).
 
